@@ -11,7 +11,7 @@ patches=("$@")
 scratch=$(mktemp -d /var/tmp/verif-mut-XXXXXX)
 trap 'rm -rf "$scratch"' EXIT
 caught=0; missed=0
-for p in "${patches[@]}"; do
+for p in "${patches[@]}"; do p=$(readlink -f "$p")
   rm -rf "$scratch/repo"; mkdir -p "$scratch/repo"
   (cd /repo && git archive HEAD) | tar -x -C "$scratch/repo"
   cp /repo/unit_scaling/_version.py "$scratch/repo/unit_scaling/_version.py" 2>/dev/null
